@@ -21,6 +21,7 @@ type MonC09 struct {
 	subCount    map[string]int
 	EndChecked  bool
 	reported    map[string]bool
+	suspects    []servedSuspect
 	deleted     map[string]bool // a delete (event, or notFound on re-fetch/query) reached the gateway since the subscription was established
 }
 
@@ -128,14 +129,33 @@ func (m *MonC09) OnLog(w *World, e *LogEntry) {
 			}
 			n, _ := w.expandRID(c, h.RID)
 			if (m.live[n] == 0 || m.interrupted[n]) && !m.deleted[n] {
-				m.viols = append(m.viols, Violation{Property: "C09", Class: "served_without_uninterrupted_subscription", Conn: c.Idx, RID: h.RID, T: e.T, Step: e.Step,
-					Message: fmt.Sprintf("c%d was handed %s at t=%d but the event subscription for %s was not live without interruption since the get answer (live=%v, last get answer t=%d)", c.Idx, h.RID, e.T, n, m.live[n] != 0, m.lastGetOK[n])})
+				// The log orders the client's reading of a frame, not the gateway's
+				// writing of it: an event that follows in the same step may already
+				// have removed the resource again, and released the subscription,
+				// before the client read this frame. Judged at the end of the step.
+				m.suspects = append(m.suspects, servedSuspect{c.Idx, h.RID, r.Episode, Violation{Property: "C09", Class: "served_without_uninterrupted_subscription", Conn: c.Idx, RID: h.RID, T: e.T, Step: e.Step,
+					Message: fmt.Sprintf("c%d was handed %s at t=%d but the event subscription for %s was not live without interruption since the get answer (live=%v, last get answer t=%d)", c.Idx, h.RID, e.T, n, m.live[n] != 0, m.lastGetOK[n])}})
 			}
 		}
 	}
 }
 
+type servedSuspect struct {
+	conn    int
+	rid     string
+	episode int
+	v       Violation
+}
+
 func (m *MonC09) OnStepEnd(w *World, step int) {
+	for _, s := range m.suspects {
+		if r := w.Clients[s.conn].Ref.Held[s.rid]; r != nil && r.Episode == s.episode {
+			m.viols = append(m.viols, s.v)
+		} else {
+			m.class("handed_and_removed_within_step")
+		}
+	}
+	m.suspects = nil
 	m.checkCounts(w)
 }
 
